@@ -129,6 +129,11 @@ func (fx *FuncCtx) mergeStates(base *State, states []*State) *State {
 		w = Ite(guards[i], live[i].written, w)
 	}
 	out.written = fx.define("written", w)
+	at := live[len(live)-1].allocTop
+	for i := len(live) - 2; i >= 0; i-- {
+		at = Ite(guards[i], live[i].allocTop, at)
+	}
+	out.allocTop = fx.define("alloctop", at)
 	for _, s := range live {
 		for _, a := range s.allocs {
 			if !containsTerm(out.allocs, a) {
